@@ -1,8 +1,8 @@
 package checks
 
 import (
-	"os"
 	"encoding/json"
+	"os"
 	"sync"
 	"time"
 
